@@ -1161,3 +1161,107 @@ def form_obligations(prop, tier):
                                      "and stored with the test function on the rows; for all Ne, nPg", timeout=300))
     obs.append(Ob(f"{prop}.gp.canary.form", ob_form_integrate, ("bilinear", 2, 1, False, True), "P", expect=REFUTED, clause="twice the integral must be refuted", timeout=120))
     return obs
+
+
+# ---------------------------------------------------------------------------------------------- phase-field splits without eigen-decomposition (C17)
+
+PFM = "EasyFEA/Models/_phasefield.py"
+
+
+class _Iso:      # stands for Models.Elastic.Isotropic in isinstance tests
+    pass
+
+
+@_guard
+def ob_pf_pointwise(dim, canary=False):
+    """PhaseField.Calc_Sigma_e_pg / Calc_psi_e_pg for ANY split (Calc_C by its contract: two arbitrary matrix fields): sigma+- == c+- eps, psi+- == 1/2 eps . sigma+-"""
+    ns = {2: 3, 3: 6}[dim]
+    sp = gen.Space(dict(eps=(NE, NPG, ns), cP=(NE, NPG, ns, ns), cM=(NE, NPG, ns, ns)))
+    g, NPs, Fe = env(sp, "EasyFEA.Models._phasefield")
+    me = sx.Mock("self", Calc_C=lambda e, verif=False: (sp.fe("cP"), sp.fe("cM")))
+    eps = sp.arr("eps")
+    sP, sM = fn_of(PFM, "PhaseField.Calc_Sigma_e_pg", g)(me, sp.fe("eps"))
+    wP, wM = gen.einsum("epij,epj->epi", sp.arr("cP"), eps), gen.einsum("epij,epj->epi", sp.arr("cM"), eps)
+    check(sP, wP * (2 if canary else 1), "SigmaP != cP eps", f"pf:sigma:P:{dim}")
+    check(sM, wM, "SigmaM != cM eps", f"pf:sigma:M:{dim}")
+    me2 = sx.Mock("self", Calc_Sigma_e_pg=lambda e: (GFe._wrap(wP), GFe._wrap(wM)))
+    pP, pM = fn_of(PFM, "PhaseField.Calc_psi_e_pg", g)(me2, sp.fe("eps"))
+    check(pP, gen.einsum("epi,epi->ep", eps, wP) * F(1, 2), "psiP != 1/2 eps . SigmaP", f"pf:psi:P:{dim}")
+    check(pM, gen.einsum("epi,epi->ep", eps, wM) * F(1, 2), "psiM != 1/2 eps . SigmaM", f"pf:psi:M:{dim}")
+    return Verdict(DISCHARGED, backend=BACKEND, sub=4)
+
+
+@_guard
+def ob_pf_split(split, dim, hetero, sgn):
+    """Bourdin / Amor splits at the generic (e, p): cP + cM == C of the material; Amor: the spherical part goes to cP where tr eps > 0 and to cM where tr eps < 0, the deviatoric part to cP"""
+    from EasyFEA.Models._phasefield import PhaseField as RealPF
+    ns = {2: 3, 3: 6}[dim]
+    decl = dict(eps=(NE, NPG, ns), C0=(ns, ns), Cep=(NE, NPG, ns, ns), mue=(NE,), bulke=(NE,))
+    sp = gen.Space(decl, scalars=("mu", "bulk"))
+    # witness: make the trace of the strain positive / negative
+    tr = sum(sp.arr("eps").data[0, 0, i] for i in range(dim))
+    if sp.const(tr).sign() != sgn:
+        for i in range(dim):
+            nm = f"eps_{i}"
+            sp.ctx.witness[nm] = -sp.ctx.witness[nm]
+        sp2 = gen.Space(decl, scalars=("mu", "bulk"))
+        sp2.ctx.witness.update(sp.ctx.witness)
+        # rebuild the generators with the flipped witness
+        from vt.alg import Ctx
+        sp2.ctx = Ctx(sp2.ctx.names, nspare=4, witness=sp.ctx.witness)
+        sp = sp2
+        tr = sum(sp.arr("eps").data[0, 0, i] for i in range(dim))
+        if sp.const(tr).sign() != sgn:
+            raise Unsupported("could not choose a witness with the requested sign of the trace")
+    g, NPs, Fe = env(sp, "EasyFEA.Models._phasefield", Isotropic=_Iso)
+    IxI = np.asarray(RealPF._PhaseField__Build_IxI(dim))
+    if split == "Bourdin":
+        mat = sx.Mock("material", C=sp.arr("Cep") if hetero else sp.arr("C0"))
+        me = sx.Mock("self", _PhaseField__material=mat, isHeterogeneous=hetero)
+        cP, cM = fn_of(PFM, "PhaseField.__Split_Bourdin", g)(me, NE, NPG)
+        Cfull = sp.arr("Cep") if hetero else gen.einsum("ij,ep->epij", sp.arr("C0"), sp.full((NE, NPG), 1))
+        full = lambda a: gen._bto(_plain(a), (NE, NPG, ns, ns))          # a field held at every (e, p) may be stored once
+        check(full(cP) + full(cM), Cfull, "Bourdin: cP + cM != C", f"pf:bourdin:{dim}:{hetero}")
+        check(full(cM), sp.full((NE, NPG, ns, ns), 0), "Bourdin: cM != 0", f"pf:bourdin:M:{dim}")
+        return Verdict(DISCHARGED, backend=BACKEND, sub=2)
+
+    class Mat(sx.Mock, _Iso):
+        pass
+    mu = sp.arr("mue") if hetero else sp.sym("mu")
+    bulk = sp.arr("bulke") if hetero else sp.sym("bulk")
+    mat = Mat("material", dim=dim, get_mu=lambda: mu, get_bulk=lambda: bulk, isHeterogeneous=hetero)
+    me = sx.Mock("self", _PhaseField__material=mat, _PhaseField__Build_IxI=lambda d: sp.lift(np.rint(IxI).astype(int)))
+    me._PhaseField__Rp_Rm = lambda v: fn_of(PFM, "PhaseField.__Rp_Rm", g)(me, v)
+    cP, cM = fn_of(PFM, "PhaseField.__Split_Amor", g)(me, sp.fe("eps"))
+    one = sp.full((NE, NPG), 1)
+    muf = gen.einsum("e,ep->ep", sp.arr("mue"), one) if hetero else sp.full((NE, NPG), sp.sym("mu"))
+    bkf = gen.einsum("e,ep->ep", sp.arr("bulke"), one) if hetero else sp.full((NE, NPG), sp.sym("bulk"))
+    m_ = np.array([1] * dim + [0] * (ns - dim))
+    if not np.array_equal(IxI, np.outer(m_, m_)):
+        raise Refuted(f"__Build_IxI({dim}) is not the Kelvin-Mandel image of I (x) I", signature="pf:IxI", replay=dict(confirmed=True))
+    Ix = sp.lift(np.rint(IxI).astype(int))
+    Id = sp.lift(np.eye(ns, dtype=int))
+    sph = gen.einsum("ep,ij->epij", bkf, Ix)
+    dev = gen.einsum("ep,ij->epij", muf * 2, Id - Ix * F(1, dim))
+    wantP = (sph if sgn > 0 else sph * 0) + dev
+    wantM = sph * 0 if sgn > 0 else sph
+    full = lambda a: gen._bto(_plain(a), (NE, NPG, ns, ns))
+    check(full(cP), wantP, f"Amor (tr eps {'>' if sgn > 0 else '<'} 0): cP", f"pf:amor:P:{dim}:{sgn}")
+    check(full(cM), wantM, f"Amor (tr eps {'>' if sgn > 0 else '<'} 0): cM", f"pf:amor:M:{dim}:{sgn}")
+    return Verdict(DISCHARGED, backend=BACKEND + "; sign of the trace decided at the witness (both signs run)", sub=2)
+
+
+def phasefield_obligations(prop, tier):
+    obs = []
+    for dim in (2, 3):
+        obs.append(Ob(f"{prop}.gp.pointwise.{dim}d", ob_pf_pointwise, (dim,), "P", (f_(PFM, "PhaseField.Calc_Sigma_e_pg"), f_(PFM, "PhaseField.Calc_psi_e_pg")),
+                      clause="for any split: SigmaP/M == cP/M eps and psiP/M == 1/2 eps . SigmaP/M at every (e, p), for all Ne, nPg", timeout=300))
+        for hetero in (False, True):
+            obs.append(Ob(f"{prop}.gp.split.Bourdin.{dim}d{'.hetero' if hetero else ''}", ob_pf_split, ("Bourdin", dim, hetero, 1), "P", (f_(PFM, "PhaseField.__Split_Bourdin"),),
+                          clause="cP == C, cM == 0, for all Ne, nPg", timeout=300))
+            for sgn in (1, -1):
+                obs.append(Ob(f"{prop}.gp.split.Amor.{dim}d{'.hetero' if hetero else ''}.{'tension' if sgn > 0 else 'compression'}", ob_pf_split, ("Amor", dim, hetero, sgn), "P",
+                              (f_(PFM, "PhaseField.__Split_Amor"), f_(PFM, "PhaseField.__Rp_Rm")),
+                              clause="cP == [tr eps > 0] K IxI + 2 mu (I - IxI / dim), cM == [tr eps < 0] K IxI (so cP + cM == C), for all Ne, nPg, homogeneous or per-element moduli", timeout=300))
+    obs.append(Ob(f"{prop}.gp.canary.pointwise", ob_pf_pointwise, (2, True), "P", expect=REFUTED, clause="twice the stress must be refuted", timeout=120))
+    return obs
